@@ -5,3 +5,4 @@ import WrglModel.Props.C11
 #print axioms Wrgl.C11_seek_input_fails
 #print axioms Wrgl.C11_seek_common_two
 #print axioms Wrgl.C11_oracle_reach_sound
+#print axioms Wrgl.C11_walk_multi_each_once
